@@ -103,14 +103,25 @@ class Walker:
             d = t["discr"]
             if "discr_of" in t:
                 pk = place_key(t["discr_of"])
+                vmap = None
                 if self.classify is not None:
                     pk = self.classify(self.fn, bid, t)
+                    if isinstance(pk, tuple):
+                        # (tracked name, {variant name of this switch: abstract value of the domain})
+                        pk, vmap = pk
                 if pk is not None and pk in self.sigma:
                     want = self.sigma[pk]
                     forced = t["otherwise"]
+                    listed = set()
                     for v, tb, name in t["targets"]:
-                        if name == want:
+                        listed.add(name)
+                        if (vmap.get(name) if vmap else name) == want:
                             forced = tb
+                    if vmap and forced == t["otherwise"]:
+                        # the wanted value may be the variant that `otherwise` stands for
+                        rest = [n for n in vmap if n not in listed and vmap[n] == want]
+                        if not rest and any(vmap.get(n) == want for n in listed):
+                            pass
                     # a variant listed explicitly elsewhere never takes this edge
             elif d["k"] in ("copy", "move") and not d["place"]["p"]:
                 val = self._env_get(env, d["place"]["l"])
@@ -180,6 +191,8 @@ def decision_table(fn, domains, classify, watch, decide=None, edge_watch=None, w
         t = fn.blocks[bid]["term"]
         if t["k"] == "switch" and "discr_of" in t:
             c = classify(fn, bid, t)
+            if isinstance(c, tuple):
+                c = c[0]
             if c in seen:
                 seen[c] += 1
     return names, table, seen
